@@ -13,6 +13,7 @@ import TlxVerif.Model.C01Erase
 import TlxVerif.Proofs.C01Main
 import TlxVerif.Proofs.C01Copy
 import TlxVerif.Proofs.C01EraseE
+import TlxVerif.Proofs.C01EraseG
 namespace TlxVerif.C02
 open TlxVerif.C01
 
@@ -115,15 +116,92 @@ theorem inv_erase_one_partial (p : Params K) (pv : p.Valid) (sw : StrictWeak p.l
   obtain ⟨res, h1, _, h3, h4, h5, h6, _⟩ := eraseOne_spec p pv sw t ht k
   exact ⟨res, h1, h3, h4, h5, h6⟩
 
--- OPEN: inv_erase — the remaining conjunct of `TreeInv` after an erase: every separator is again equivalent
---   to the largest key below it (`SepOk`): the `btree_update_lastkey` propagation, the separator rewritten by
---   shift_left_*/shift_right_*, the key pulled down by merge_inner and the level-1 refresh in the
---   `btree_fixmerge` handling.  Modelled, checked structurally against the implementation and against
---   verify() on every run; not yet proved.  (Balance, fill, levels, child counts, key order, stats and the
---   ledger are proved: `erase_shape_ledger`, `inv_erase_one_partial`.)
-def inv_erase_statement (p : Params K) : Prop :=
-  ∀ (t : Tree K V) (tg : Target K), TreeInv p t →
-    ∃ res, eraseTop p t tg = some res ∧ TreeInv p res.tree
+/-- **erase preserves the invariant**: `erase_one(key)` and `erase(iterator)` (both are `eraseTop` with the
+respective target) are defined on every state satisfying `TreeInv` and return a state satisfying it:
+besides balance / fill / order also every separator is again equivalent to the largest key below it
+(the `btree_update_lastkey` propagation, the separators rewritten by the shifts, the key pulled down by
+merge_inner, the level-1 refresh after a merge, root collapse) -/
+theorem inv_erase (p : Params K) (pv : p.Valid) (sw : StrictWeak p.lt) (tg : Target K) (t : Tree K V)
+    (ht : TreeInv p t) : ∃ res, eraseTop p t tg = some res ∧ TreeInv p res.tree :=
+  eraseTop_treeInv p pv sw tg t ht
+
+/-! ## all histories -/
+
+/-- the mutating operations covered by theorems -/
+inductive Op (K V : Type) where
+  | insert (k : K) (v : V)
+  | erase (tg : Target K)            -- erase_one(key) / erase(iterator)
+  | clear
+
+/-- cumulative allocator ledger of a history -/
+def runOps (p : Params K) : Tree K V → Ledger → List (Op K V) → Option (Tree K V × Ledger)
+  | t, lg, [] => some (t, lg)
+  | t, lg, .insert k v :: ops =>
+    match insert p t k v with
+    | none => none
+    | some r => runOps p r.tree (lg.add r.ledger) ops
+  | t, lg, .erase tg :: ops =>
+    match eraseTop p t tg with
+    | none => none
+    | some r => runOps p r.tree (lg.add r.ledger) ops
+  | t, lg, .clear :: ops => runOps p (clear t).1 (lg.add (clear t).2) ops
+
+/-- allocated − freed = nodes currently in the tree -/
+def Balanced (t : Tree K V) (lg : Ledger) : Prop :=
+  lg.leafAlloc = lg.leafFree + t.nLeaves ∧ lg.innerAlloc = lg.innerFree + t.nInner
+
+/-- **for every history** of insert / erase_one / erase(iterator) / clear, every capacity ≥ 4, both
+searches, every strict weak order: no step leaves defined behaviour, the invariant holds after every
+step, and the allocator ledger stays exact (allocated − freed = live nodes); destroying the container
+(`clear`) afterwards returns every node -/
+theorem inv_all_histories (p : Params K) (pv : p.Valid) (sw : StrictWeak p.lt) :
+    ∀ (ops : List (Op K V)) (t : Tree K V) (lg : Ledger), TreeInv p t → Balanced t lg →
+      ∃ t' lg', runOps p t lg ops = some (t', lg') ∧ TreeInv p t' ∧ Balanced t' lg' ∧
+        (lg'.add (clear t').2).leafAlloc = (lg'.add (clear t').2).leafFree ∧
+        (lg'.add (clear t').2).innerAlloc = (lg'.add (clear t').2).innerFree := by
+  intro ops
+  induction ops with
+  | nil =>
+    intro t lg ht hb
+    have hc := clear_ledger p t ht
+    have hst := stats_eq_recount p t ht
+    refine ⟨t, lg, rfl, ht, hb, ?_, ?_⟩
+    · simp only [Ledger.add, hc.2.2.1, hc.2.2.2.2.1]; have := hb.1; omega
+    · simp only [Ledger.add, hc.2.2.2.1, hc.2.2.2.2.2]; have := hb.2; omega
+  | cons op ops ih =>
+    intro t lg ht hb
+    cases op with
+    | insert k v =>
+      obtain ⟨res, hres⟩ := insert_defined p pv t ht k v
+      have hinv := inv_insert p pv sw t ht k v res hres
+      have hl := insert_ledger p pv t ht k v res hres
+      have hb' : Balanced res.tree (lg.add res.ledger) := by
+        simp only [Balanced, Ledger.add]
+        have := hb.1; have := hb.2
+        omega
+      obtain ⟨t', lg', h1, h2⟩ := ih res.tree _ hinv hb'
+      exact ⟨t', lg', by simp only [runOps, hres]; exact h1, h2⟩
+    | erase tg =>
+      obtain ⟨res, hres, hinv⟩ := inv_erase p pv sw tg t ht
+      obtain ⟨res', hres', _, h3, h4, h5, h6⟩ := erase_shape_ledger p pv tg t ht
+      rw [hres] at hres'
+      cases hres'
+      have hb' : Balanced res.tree (lg.add res.ledger) := by
+        simp only [Balanced, Ledger.add]
+        have := hb.1; have := hb.2
+        omega
+      obtain ⟨t', lg', h1, h2⟩ := ih res.tree _ hinv hb'
+      exact ⟨t', lg', by simp only [runOps, hres]; exact h1, h2⟩
+    | clear =>
+      have hc := clear_ledger p t ht
+      have hst := stats_eq_recount p t ht
+      have hb' : Balanced (clear t).1 (lg.add (clear t).2) := by
+        simp only [Balanced, Ledger.add, hc.2.2.1, hc.2.2.2.1, hc.2.2.2.2.1, hc.2.2.2.2.2, Tree.nLeaves, Tree.nInner,
+          hc.2.1]
+        have := hb.1; have := hb.2
+        omega
+      obtain ⟨t', lg', h1, h2⟩ := ih (clear t).1 _ hc.1 hb'
+      exact ⟨t', lg', by simp only [runOps]; exact h1, h2⟩
 
 -- OPEN: inv_bulk_load — `bulkLoad` of a sorted range yields a state satisfying `TreeInv` whose ledger
 --   equals its node count (the `n / (parts - i)` distribution keeps every node at least half full).
